@@ -21,7 +21,7 @@ func checkWatcherTable(c *Ctx) {
 		c.undecided(rule, "_watcher.run/shape", pos, "no actor loop found")
 		return
 	}
-	inl := map[*ssa.Function]bool{}
+	inl := autoInline(c.P, fn, 60)
 	if f := c.P.Func("", "_watcher.scheduleRetry"); f != nil {
 		inl[f] = true
 		c.useFn(f)
@@ -39,7 +39,7 @@ func checkWatcherTable(c *Ctx) {
 	isPhi := func(t *Term, n string) bool { return t != nil && t.K == "phi" && t.S == n }
 	armOf := func(pa *Path) (string, *Effect) {
 		for _, e := range pa.Effects {
-			if e.Kind == "select" && e.Blocking && e.Depth == 0 {
+			if e.Kind == "select" && e.Blocking {
 				if e.Arm < 0 {
 					return "?", e
 				}
@@ -436,7 +436,7 @@ func checkSessionTable(c *Ctx) {
 	ld, _ = c.P.constLit("", "EventTypeDelete")
 	armOf := func(pa *Path) (string, *Effect) {
 		for _, e := range pa.Effects {
-			if e.Kind == "select" && e.Blocking && e.Depth == 0 {
+			if e.Kind == "select" && e.Blocking {
 				if e.Arm < 0 {
 					return "?", e
 				}
